@@ -32,7 +32,7 @@ def spec(count, min_size=0):
     return st.fixed_dictionaries({
         "seed": st.integers(0, 2 ** 32 - 1),
         "sizes": st.lists(sizes.map(lambda n: max(n, min_size)), min_size=count, max_size=count),
-        "mode": st.sampled_from(["lattice", "lattice", "float", "mixed"]),
+        "mode": st.sampled_from(["lattice", "lattice", "float", "mixed", "near"]),
         "L": st.integers(3, 40),
         "k": st.sampled_from(SCALE_EXPONENTS),
         "shift": st.integers(-50, 50),
@@ -59,6 +59,11 @@ def expand(sp):
                 if sp["mode"] == "mixed" and ln > 0:
                     bb = nudge(bb, rng.randint(-2, 2))
                     dd = nudge(dd, rng.randint(-2, 2))
+                if sp["mode"] == "near" and ln > 0:
+                    eps = 10.0 ** (-rng.randint(4, 12))
+                    ref = max(abs(bb), abs(dd), scale)
+                    bb, d2 = bb + rng.randint(-3, 3) * eps * ref, dd + rng.randint(-3, 3) * eps * ref
+                    dd = d2 if d2 > bb else bb + ln * scale
                 pts.append([bb, dd])
         out.append(pts)
     return out
@@ -181,10 +186,9 @@ def check_differential(case, ctx):
     b = dist(ctx, "b", X, Y)
     rb = M.bottleneck_ref(X, Y)
     ctx.require(abs(b - rb) <= tol, "b_value", lambda: "bottleneck=%r reference=%r |X|=%d |Y|=%d" % (b, rb, len(X), len(Y)))
-    if len(X) * len(Y) <= 6400:
-        w = dist(ctx, "w", X, Y)
-        rw = M.wasserstein_ref(X, Y)
-        ctx.require(abs(w - rw) <= tol, "w_value", lambda: "wasserstein=%r LP reference=%r |X|=%d |Y|=%d" % (w, rw, len(X), len(Y)))
+    w = dist(ctx, "w", X, Y)
+    rw = M.wasserstein_ref(X, Y)
+    ctx.require(abs(w - rw) <= tol, "w_value", lambda: "wasserstein=%r independent assignment reference=%r |X|=%d |Y|=%d" % (w, rw, len(X), len(Y)))
 
 
 _q = 1 if TIER == "quick" else 1
@@ -197,6 +201,6 @@ CLAUSES = [
     Clause("empty_and_order", s_empty, check_empty_and_order, quick=1600, thorough=1600,
            rule="d_B(X,0)=max pers/2, d_W(X,0)=total pers/sqrt 2, d_B<=d_W; non-trivial = >= 20 points each"),
     Clause("differential", spec(2).map(lambda s: {"spec": s}), check_differential, quick=1600, thorough=1600,
-           rule="value oracle beyond brute force: bottleneck vs one-sided-matching reference (any size), wasserstein vs LP (|X||Y|<=6400); "
+           rule="value oracle beyond brute force: bottleneck vs one-sided-matching reference (any size), wasserstein vs the independent assignment reference; "
                 "non-trivial = >= 20 points each"),
 ]
